@@ -7,7 +7,7 @@ EXTENDS Naturals, Sequences, FiniteSets, TLC, Json, IOUtils, TLCExt, SequencesEx
 Log == ndJsonDeserialize(IOEnv.TRACE_FILE)
 VARIABLES l, snap, memo, out
 Has(f, k) == k \in DOMAIN f
-Key(e) == IF Has(e, "o2") THEN <<snap[ToString(e.o)], e.op, snap[ToString(e.o2)]>> ELSE <<snap[ToString(e.o)], e.op>>
+Key(e) == IF Has(e, "o2") THEN <<snap[ToString(e.o)], e.kop, snap[ToString(e.o2)]>> ELSE <<snap[ToString(e.o)], e.kop>>
 Judge(e) ==
   IF e.k = "init" THEN {}
   ELSE
@@ -17,6 +17,7 @@ Judge(e) ==
   IN (IF frameBad # {} THEN {<<"Frame", "FAIL">>} ELSE {})
      \cup (IF funcBad THEN {<<"AnswersFunctional", "FAIL">>} ELSE {})
      \cup (IF Has(e, "exc") THEN {<<"NoException", "FAIL">>} ELSE {})
+     \cup (IF Has(e, "alias") THEN {<<"NoAlias", "FAIL">>} ELSE {})
 Init == l = 1 /\ snap = <<>> /\ memo = <<>> /\ out = {}
 Next == /\ l <= Len(Log) /\ l' = l + 1
         /\ LET e == Log[l] IN
